@@ -249,6 +249,7 @@ class RiscV(Machine):
         self.r[2] = STACK_TOP
         self.r[1] = RET
         self.r[10], self.r[11], self.r[12] = a0, a1, a2
+        self.reserved_reported = False
         # sp, s0-s11, and gp / tp, which the psABI reserves (a function never changes them)
         self.saved = {i: self.r[i] for i in [2, 3, 4, 8, 9] + list(range(18, 28)) if i < self.nregs}
 
@@ -260,6 +261,11 @@ class RiscV(Machine):
         return out
 
     def w(self, i, v):
+        if i in (3, 4) and not self.reserved_reported:
+            # psABI: gp and tp are unallocatable - "procedures should not modify the integer registers tp and gp, because
+            # signal handlers may rely upon their values": also not for a while with a restore at the end
+            self.reserved_reported = True
+            self.violations.append("writes the reserved register %s (a signal handler or interrupt taken meanwhile relies on it)" % self.NAMES[i])
         if i:
             self.r[i] = v & self.MASK
 
